@@ -84,6 +84,22 @@ def has_missing(v):
   return False
 
 
+def untyped(v, depth=0):
+  """`v` with every typed missing value (which compares unequal to the typed
+  missing value of any other spec instance) replaced by MISSING_VALUE."""
+  if depth > 12 or isinstance(v, pg.Object):
+    return v
+  if MISSING == v:
+    return MISSING
+  if isinstance(v, dict):
+    return {k: untyped(x, depth + 1) for k, x in v.items()}
+  if isinstance(v, list):
+    return [untyped(x, depth + 1) for x in v]
+  if isinstance(v, tuple):
+    return tuple(untyped(x, depth + 1) for x in v)
+  return v
+
+
 def short(v):
   r = repr(v)
   return r if len(r) < 200 else r[:200] + '…'
@@ -396,7 +412,7 @@ def same_default(a, b):
   if same(a, b):
     return True
   try:
-    return isinstance(a, type(b)) or isinstance(b, type(a)) and bool(a == b)
+    return (isinstance(a, type(b)) or isinstance(b, type(a))) and bool(a == b)
   except Exception:  # pylint: disable=broad-except
     return False
 
@@ -587,6 +603,7 @@ def compat_law(ctx, rng, da, db, a, b, state):
       control.extend([S.build(S.strip_transforms(da)), S.build(S.strip_transforms(db))])
     a0, b0 = control
     try:
+      v = untyped(v)
       again = (a0.is_compatible(b0) and S.accepts(b0, v)[0] and not S.accepts(a0, v)[0])
     except Exception:  # pylint: disable=broad-except
       again = False
@@ -930,6 +947,7 @@ def extend_law(ctx, rng, da, db, a, base, state):
     if e0 is None:
       return True
     try:
+      v = untyped(v)
       if not S.accepts(e0, v)[0]:
         return True
       pv0 = project(v, e0, b0)
